@@ -7,7 +7,9 @@
      route received       pre-policy route monitoring; post-policy announcement or withdrawal according to
                           the outcome of inbound processing; Loc-RIB withdrawal of the path that stops being
                           selected and announcement of the new one (ADD-PATH: one identifier per source)
-     station removed      Loc-RIB Peer Down; Termination.
+     station removed      Loc-RIB Peer Down; Termination
+     connection lost      nothing until the next record is due; then, instead of it, a whole new monitoring
+                          session for the state after the event (Initiation, Peer Ups, tables, Loc-RIB).
    Design-level result: folding these records with the station of Monitor.tla yields no note and tables
    equal to the speaker model's (the D_ invariants), in every interleaving of up to MaxEvents events. *)
 EXTENDS Monitor
@@ -23,8 +25,8 @@ MkR(p, c) == LET i == PInfo[p].idx IN
    med |-> -1, loop |-> c = 2, via |-> 0, pp |-> 0]
 MkL == [src |-> "local", v |-> 1, len |-> 0, lp |-> -1, med |-> -1, loop |-> FALSE, via |-> 0, pp |-> 0]
 
-VARIABLES st, n
-mvars == <<up, inr, loc, impPol, expPol, inrPol, expEff, st, n>>
+VARIABLES st, n, must
+mvars == <<up, inr, loc, impPol, expPol, inrPol, expEff, st, n, must>>
 
 (* ---- the records ---- *)
 Base(t) == [t |-> t, perr |-> "", ptype |-> -1, post |-> FALSE, peer |-> "none", as |-> 0, rid |-> "none"]
@@ -73,47 +75,59 @@ EmitRoute(pol, p, x, old, new) ==   \* p's route for x changes from old to new (
            ELSE IF Usable(old) THEN <<Rm(PeerHdr(Base("rm"), p), TRUE, <<>>, Wd1(x, 0))>> ELSE <<>>
       ELSE <<>>)
 
-PeerTables(pol, p) ==
+PeerTables(pol, p, i) ==
   Flat([k \in 1..Cardinality(Prefixes) |->
           LET x == SetToSeq(Prefixes)[k] IN
-            IF inr[p][x] = NoRoute THEN <<>> ELSE EmitRoute(pol, p, x, NoRoute, inr[p][x])])
-EmitOn(pol) ==
+            IF i[p][x] = NoRoute THEN <<>> ELSE EmitRoute(pol, p, x, NoRoute, i[p][x])])
+EmitOn(pol, u) ==
   <<MInit>> \o (IF WantsLoc(pol) THEN <<MLocUp>> ELSE <<>>)
-  \o Flat([k \in 1..Cardinality(Peers) |-> LET p == SetToSeq(Peers)[k] IN IF up[p] THEN <<MUp(p)>> ELSE <<>>])
+  \o Flat([k \in 1..Cardinality(Peers) |-> LET p == SetToSeq(Peers)[k] IN IF u[p] THEN <<MUp(p)>> ELSE <<>>])
+(* a whole monitoring session for the tables (u, i, lo): opening records, the tables of every established
+   neighbour after its Peer Up, the Loc-RIB *)
+InitialSeq(pol, u, i, lo) ==
+  EmitOn(pol, u)
+  \o Flat([k \in 1..Cardinality(Peers) |-> LET p == SetToSeq(Peers)[k] IN IF u[p] THEN PeerTables(pol, p, i) ELSE <<>>])
+  \o AllLocDelta(pol, NoTbl, [x \in Prefixes |-> NoRoute], i, lo)
 
-Send(s, ms) == IF s.on THEN StFold(s, ms, 1) ELSE s
+(* what reaches the station: nothing while it is not configured; after the connection was lost, the first
+   record that is due is replaced by a new session describing the state AFTER the event *)
+Send(s, ms) == IF ~s.on THEN s
+               ELSE IF s.dropped THEN (IF ms = <<>> THEN s ELSE StFold(s, InitialSeq(s.pol, up', inr', loc'), 1))
+               ELSE StFold(s, ms, 1)
 
 (* ---- the events ---- *)
 Tick == n' = n + 1
-EUp(p)   == PUp(p) /\ st' = Send(st, <<MUp(p)>>) /\ Tick
-EDown(p) == PDown(p) /\ st' = Send(st, AllLocDelta(st.pol, inr, loc, inr', loc') \o <<MDown(p)>>) /\ Tick
+EUp(p)   == PUp(p) /\ st' = Send(st, <<MUp(p)>>) /\ Tick /\ must' = st.on
+EDown(p) == PDown(p) /\ st' = Send(st, AllLocDelta(st.pol, inr, loc, inr', loc') \o <<MDown(p)>>) /\ Tick /\ must' = st.on
 EAnn(p, x, c) == LET r == MkR(p, c) IN
                    /\ PAnn(p, x, r)
-                   /\ st' = Send(st, EmitRoute(st.pol, p, x, inr[p][x], r) \o AllLocDelta(st.pol, inr, loc, inr', loc')) /\ Tick
+                   /\ st' = Send(st, EmitRoute(st.pol, p, x, inr[p][x], r) \o AllLocDelta(st.pol, inr, loc, inr', loc'))
+                   /\ Tick /\ must' = FALSE
 EWd(p, x) == /\ inr[p][x] # NoRoute /\ PWd(p, x)
-             /\ st' = Send(st, EmitRoute(st.pol, p, x, inr[p][x], NoRoute) \o AllLocDelta(st.pol, inr, loc, inr', loc')) /\ Tick
-EApiAdd(x) == loc[x] = NoRoute /\ PApiAdd(x, MkL) /\ st' = Send(st, AllLocDelta(st.pol, inr, loc, inr', loc')) /\ Tick
-EApiDel(x) == loc[x] # NoRoute /\ PApiDel(x) /\ st' = Send(st, AllLocDelta(st.pol, inr, loc, inr', loc')) /\ Tick
-EOn  == /\ ~st.on /\ UNCHANGED pvars /\ Tick
-        /\ LET s0 == [StOn(st, Pol) EXCEPT !.initial = FALSE]
-               s1 == StFold(s0, EmitOn(Pol), 1)
-               (* the tables follow the Peer Ups: the policy is known to the emitter through st.pol *)
-               tbl == Flat([k \in 1..Cardinality(Peers) |->
-                              LET p == SetToSeq(Peers)[k] IN IF up[p] THEN PeerTables(Pol, p) ELSE <<>>])
-           IN st' = StFold(StFold(s1, tbl, 1), AllLocDelta(Pol, NoTbl, [x \in Prefixes |-> NoRoute], inr, loc), 1)
-EOff == /\ st.on /\ UNCHANGED pvars /\ Tick
-        /\ st' = StOff(StFold(st, (IF WantsLoc(st.pol) THEN <<MLocDown>> ELSE <<>>) \o <<MTerm>>, 1))
+             /\ st' = Send(st, EmitRoute(st.pol, p, x, inr[p][x], NoRoute) \o AllLocDelta(st.pol, inr, loc, inr', loc'))
+             /\ Tick /\ must' = FALSE
+EApiAdd(x) == loc[x] = NoRoute /\ PApiAdd(x, MkL) /\ st' = Send(st, AllLocDelta(st.pol, inr, loc, inr', loc')) /\ Tick /\ must' = FALSE
+EApiDel(x) == loc[x] # NoRoute /\ PApiDel(x) /\ st' = Send(st, AllLocDelta(st.pol, inr, loc, inr', loc')) /\ Tick /\ must' = FALSE
+EOn  == /\ ~st.on /\ UNCHANGED pvars /\ Tick /\ must' = TRUE
+        /\ st' = StFold([StOn(st, Pol) EXCEPT !.initial = FALSE], InitialSeq(Pol, up, inr, loc), 1)
+EOff == /\ st.on /\ UNCHANGED pvars /\ Tick /\ must' = FALSE
+        /\ LET s0 == IF st.dropped THEN StFold(st, InitialSeq(st.pol, up, inr, loc), 1) ELSE st
+           IN st' = StOff(StFold(s0, (IF WantsLoc(st.pol) THEN <<MLocDown>> ELSE <<>>) \o <<MTerm>>, 1))
+EDrop == st.on /\ ~st.dropped /\ st' = StDrop(st) /\ UNCHANGED pvars /\ Tick /\ must' = FALSE
 
-MInitial == PInit /\ st = StInit /\ n = 0
+MInitial == PInit /\ st = StInit /\ n = 0 /\ must = FALSE
 MNext == /\ n < MaxEvents
          /\ \/ \E p \in Peers : EUp(p) \/ EDown(p) \/ \E x \in Prefixes : EWd(p, x) \/ \E c \in {0, 1, 2} : EAnn(p, x, c)
             \/ \E x \in Prefixes : EApiAdd(x) \/ EApiDel(x)
-            \/ EOn \/ EOff
+            \/ EOn \/ EOff \/ EDrop
 MSpec == MInitial /\ [][MNext]_mvars
 
+Live == st.on /\ st.started
 D_NoNote   == st.viol = {}
-D_Brackets == st.on => (st.started /\ st.up = {p \in Peers : up[p]} /\ st.locup = WantsLoc(st.pol))
-D_AdjIn    == (st.on /\ WantsPre(st.pol)) => \A p \in Peers : \A x \in Prefixes : PreOk(st.pre[p][x], p, x)
-D_Post     == (st.on /\ WantsPost(st.pol)) => \A p \in Peers : \A x \in Prefixes : PostOk(st.post[p][x], p, x)
-D_LocRib   == (st.on /\ WantsLoc(st.pol)) => \A x \in Prefixes : LocOk(st.loc, x) /\ LocpOk(st.locp, x)
+D_Brackets == /\ (st.on /\ ~st.dropped) => st.started
+              /\ Live => (st.up = {p \in Peers : up[p]} /\ st.locup = WantsLoc(st.pol))
+D_Reconnect == must => st.started
+D_AdjIn    == (Live /\ WantsPre(st.pol)) => \A p \in Peers : \A x \in Prefixes : PreOk(st.pre[p][x], p, x)
+D_Post     == (Live /\ WantsPost(st.pol)) => \A p \in Peers : \A x \in Prefixes : PostOk(st.post[p][x], p, x)
+D_LocRib   == (Live /\ WantsLoc(st.pol)) => \A x \in Prefixes : LocOk(st.loc, x) /\ LocpOk(st.locp, x)
 =============================================================================
